@@ -124,6 +124,9 @@ var sites = []site{
 	{Name: "step-id-dup", Tmpl: hdr + "      - id: @Q@\n        run: echo\n      - id: @Q@\n        run: echo\n"},
 	{Name: "matrix-key", Tmpl: "on: push\njobs:\n  test:\n    runs-on: ubuntu-latest\n    strategy:\n      matrix:\n        @Q@: [1, 2]\n    steps:\n      - run: echo ${{ matrix.nope }}\n"},
 	{Name: "matrix-value-dup", Tmpl: "on: push\njobs:\n  test:\n    runs-on: ubuntu-latest\n    strategy:\n      matrix:\n        os: [@Q@, @Q@]\n    steps:\n      - run: echo\n"},
+	// a file of zero bytes (one diagnostic, no source line to show) and one of blank lines only
+	{Name: "empty-file", Tmpl: ""},
+	{Name: "blank-file", Tmpl: "\n\n"},
 	{Name: "matrix-key-listed", Tmpl: "on: push\njobs:\n  test:\n    runs-on: ubuntu-latest\n    strategy:\n      matrix:\n        @Q@: [1]\n        other: [2]\n        exclude:\n          - target: 1\n    steps:\n      - run: echo\n"},
 	{Name: "matrix-exclude-key", Tmpl: "on: push\njobs:\n  test:\n    runs-on: ubuntu-latest\n    strategy:\n      matrix:\n        os: [a]\n        exclude:\n          - @Q@: b\n    steps:\n      - run: echo\n"},
 	{Name: "matrix-exclude-value", Tmpl: "on: push\njobs:\n  test:\n    runs-on: ubuntu-latest\n    strategy:\n      matrix:\n        os: [a]\n        exclude:\n          - os: @Q@\n    steps:\n      - run: echo\n"},
